@@ -387,6 +387,87 @@ func checkMatrix(r *ev.Run, l libMat, a mat) {
 	}
 }
 
+
+// checkMatrixScaled: the kernels at 2^-20 and 2^20 times a well-conditioned matrix. Power-of-two scalings are exact,
+// so inverse, eigenvalues and singular values must be the exactly rescaled unit-scale answers up to rounding; a
+// difference can only come from an absolute threshold inside the library.
+func checkMatrixScaled(r *ev.Run, l libMat, a mat) {
+	sv := singularValues(a)
+	if math.Abs(a.det()) < 0.5 || sv[len(sv)-1] < 0.1 {
+		return
+	}
+	sep := true
+	for i := 0; i+1 < len(sv); i++ {
+		if sv[i]-sv[i+1] < 0.1 {
+			sep = false
+		}
+	}
+	for _, k := range []float64{1.0 / (1 << 20), 1 << 20} {
+		sa := make(mat, len(a))
+		for i := range a {
+			sa[i] = make([]float64, len(a[i]))
+			for j := range a[i] {
+				sa[i][j] = k * a[i][j]
+			}
+		}
+		c := mcase{Kernel: l.name, Matrix: sa, Note: fmt.Sprintf("scaled by %g", k)}
+		viol := func(kind, msg string) {
+			r.Violation(l.name+"/scaled/"+kind, fmt.Sprintf("matrix %v x %g: %s", a, k, msg), c)
+		}
+		r.Eval(1)
+		m := l.build(sa)
+		if l.inv != nil {
+			inv := l.dense(l.inv(m))
+			if d := sa.mul(inv).maxDiff(ident(l.n)); !(d <= 1e-9*sv[0]/sv[len(sv)-1]) {
+				viol("Inverse", fmt.Sprintf("M * M^-1 differs from the identity by %g", d))
+			}
+		}
+		if l.eig != nil {
+			e1, ek := l.eig(l.build(a)), l.eig(m)
+			minSep := math.Inf(1)
+			for i := range e1 {
+				for j := i + 1; j < len(e1); j++ {
+					minSep = math.Min(minSep, cmplx.Abs(e1[i]-e1[j]))
+				}
+			}
+			if minSep >= 0.1 {
+				for _, e := range ek {
+					best := math.Inf(1)
+					for _, f := range e1 {
+						best = math.Min(best, cmplx.Abs(e/complex(k, 0)-f))
+					}
+					if !(best <= 1e-7*(1+sv[0])) {
+						viol("Eigenvalues", fmt.Sprintf("eigenvalue %v / %g is %g away from every eigenvalue %v of the unscaled matrix", e, k, best, e1))
+						break
+					}
+				}
+			}
+		}
+		if l.svd != nil && sep {
+			ui, si, vi := l.svd(m)
+			u, sm, v := l.dense(ui), l.dense(si), l.dense(vi)
+			tol := 1e-7 * sv[0] / sv[len(sv)-1]
+			if d := u.mul(sm).mul(v.t()).maxDiff(sa); !(d <= tol*k*sv[0]) {
+				viol("SVD/reconstruct", fmt.Sprintf("U S V^T differs from M by %g", d))
+			}
+			if d := u.t().mul(u).maxDiff(ident(l.n)); !(d <= 1e-7) {
+				viol("SVD/orthogonal", fmt.Sprintf("U^T U differs from the identity by %g", d))
+			}
+			if d := v.t().mul(v).maxDiff(ident(l.n)); !(d <= 1e-7) {
+				viol("SVD/orthogonal", fmt.Sprintf("V^T V differs from the identity by %g", d))
+			}
+			got := sortedDesc(diag(sm))
+			for i := range sv {
+				if !(math.Abs(got[i]/k-sv[i]) <= tol*sv[0]) {
+					viol("SVD/values", fmt.Sprintf("singular values %v / %g, reference %v", got, k, sv))
+					break
+				}
+			}
+		}
+		r.NontrivialAdd(1)
+	}
+}
+
 func sortedDesc(x []float64) []float64 {
 	o := append([]float64{}, x...)
 	sort.Sort(sort.Reverse(sort.Float64Slice(o)))
@@ -478,11 +559,16 @@ func matrixStage(r *ev.Run, full bool) {
 	_ = stride
 	for _, l := range ls[:2] {
 		l := l
-		ev.Parallel(len(m2), 0, func(i int) { checkMatrix(r, l, m2[i]) })
+		ev.Parallel(len(m2), 0, func(i int) { checkMatrix(r, l, m2[i]); checkMatrixScaled(r, l, m2[i]) })
 	}
 	for _, l := range ls[2:4] {
 		l := l
-		ev.Parallel(len(m3), 0, func(i int) { checkMatrix(r, l, m3[i]) })
+		ev.Parallel(len(m3), 0, func(i int) {
+			checkMatrix(r, l, m3[i])
+			if i%5 == 0 {
+				checkMatrixScaled(r, l, m3[i])
+			}
+		})
 	}
 	// 4x4: entries in {-1,0,1} with at most k non-zeros, plus diagonal-dominant structured ones
 	maxNZ := 3
@@ -528,6 +614,9 @@ func matrixStage(r *ev.Run, full bool) {
 	rec2(0, 0, nil)
 	ev.Parallel(len(m4), 0, func(i int) {
 		checkMatrix(r, ls[4], m4[i])
+		if i%7 == 0 {
+			checkMatrixScaled(r, ls[4], m4[i])
+		}
 		// characteristic polynomial
 		a := m4[i]
 		p := ls[4].build(a).(*numerical.Matrix4).CharPoly()
